@@ -896,6 +896,15 @@ class Interp:
             else:
                 self.check_vc(z3.URem(as_bv(p.off, 64), z3.BitVecVal(align, 64)) == 0, "align", "misaligned access possible")
 
+    def unwritten(self, o, off, size):
+        """no cell of the object overlaps [off, off+size): nothing was ever stored there (uninitialised for allocas and output arguments)"""
+        if not is_conc(off):
+            return False
+        for co, (cs, _) in o.cells.items():
+            if is_conc(co) and co < off + size and off < co + cs:
+                return False
+        return o.kind in ("alloca", "arg", "heap") and not o.const
+
     def load_bytes(self, o, off, size):
         """little-endian composite of [off, off+size) as python int / BitVecRef; raises on uninit/abstract"""
         c = o.cells.get(off)
